@@ -269,6 +269,8 @@ def run(ix, R):
                 'array_equal(self.wavenumberGrid.take(F), w)', 'array_equal(self.wavenumberGrid[F], w)',
                 'array_equal(w, self.wavenumberGrid.take(F))', 'array_equal(w, self.wavenumberGrid[F])')]
 
+            nonempty = [tab.canon_cond(spec(fl, t_, b))[0] for t_ in (
+                'len(F) != 0', 'len(self.wavenumberGrid[F]) != 0', 'len(self.wavenumberGrid.take(F)) != 0')]
             unknown = []
 
             def scenario(no_grid, same, assume=None):
@@ -279,6 +281,10 @@ def run(ix, R):
                         r = no_grid != f_none
                     elif not no_grid and any(tab.equal(c, e_) for e_ in eqs):
                         r = same
+                    elif not no_grid and any(tab.equal(c, e_) for e_ in nonempty):
+                        # "some native point lies in the requested range": the case all three scenarios are about
+                        # (with none selected the reviewed code fails; what a change makes of that case is not this rule's)
+                        r = True
                     elif assume is not None and any(tab.equal(c, u_) for u_ in assume):
                         r = assume[[k_ for k_ in assume if tab.equal(c, k_)][0]]
                     else:
@@ -392,6 +398,15 @@ def run(ix, R):
                     ok = len(ce.args) == 2 and tab.equal(ce.args[1], pe['w']) and \
                         tab.equal(fn.args[0], spec(fl, 'self.wavenumberGrid[F]', b)) and tab.equal(fn.args[1], O) and \
                         kws.get('axis') is not None and kws['axis'].const() == 0
+                    # requested points beyond the selected native points keep the first / last selected value, as
+                    # np.interp does for the cross-sections (the two opacity forms answer alike)
+                    fv = kws.get('fill_value')
+                    held = fv is not None and tab.equal(fv, spec(fl, '(O[0], O[-1])', {'O': O}))
+                    R.check('3.interp.edges', 'SIB', site,
+                            'requested points outside the selected native points are held at the first / last selected '
+                            'value (the behaviour of np.interp in Opacity.opacity)', held,
+                            key='fill_value=%s' % (fmt(fl, fv)[:80] if fv is not None else None),
+                            detail='interp1d(..., fill_value=%s)' % (fmt(fl, fv)[:120] if fv is not None else None), loc=f.loc())
             R.check('3.interp', 'ALG', site,
                     'otherwise the value is interpolated over exactly the selected native points and their opacities',
                     ok, key=fmt(fl, v3)[:160], detail=fmt(fl, v3)[:300], loc=f.loc())
